@@ -108,7 +108,8 @@ class Compiler:
                                 nonlocal data, addr
                                 def fn():
                                     old_addr_value = wait(old_addr)
-                                    new_addr_value = get_as_int(state, "link address", state["insn"], insn.value, bitness=16, unsigned=False)
+                                    # An address, not a signed number: -2 is not 177776
+                                    new_addr_value = get_as_int(state, "link address", state["insn"], insn.value, bitness=16, unsigned=True)
                                     length = new_addr_value - old_addr_value
                                     if length < 0:
                                         reports.error(
